@@ -40,6 +40,8 @@ def run(P, R, tier):
     segment_point(P, R)
     from rules import C13
     C13.fixed_taint(P, R, 'C02.d', ('intersects',))
+    from rules import common as _cm
+    _cm.coordinate_buffers_row_major(P, R, 'C02.a')
 
 
 def units_part(P, R):
